@@ -272,6 +272,7 @@ type Hist struct {
 	maxNodes        int
 	big             bool
 	last            *Node // container the previous step worked on (pick locality)
+	chain           int   // > 0 while an operation issues a follow-up operation of its own kind
 	sizeClass       int   // 0 small, 1 big (48 slots), 2 huge list first, 3 deep chain first
 }
 
